@@ -55,12 +55,14 @@ type FuncContract struct {
 	Trusted    bool
 	Inline     bool
 	NoSafety   bool
+	Pkg        string // home package of the contract text (for unqualified names); "" = caller's
 	File       string
 	Line       int
 	Bound      bool
 }
 
 type Pred struct {
+	Pkg    string
 	Name   string
 	Params []string
 	Body   Expr
@@ -159,7 +161,14 @@ func (cs *Contracts) LoadFile(path string, trusted bool) error {
 			lines[len(lines)-1].text += " " + t
 		}
 	}
-	return cs.parseLines(lines, trusted)
+	home := ""
+	if !trusted {
+		home = "xmpp"
+		if strings.Contains(path, "/stanza/") {
+			home = "stanza"
+		}
+	}
+	return cs.parseLines(lines, trusted, home)
 }
 
 var labelRe = regexp.MustCompile(`^\[([A-Za-z0-9_.\-]+)\]\s*`)
@@ -203,7 +212,7 @@ func parseTypedVars(s string) ([]TypedVar, error) {
 	return out, nil
 }
 
-func (cs *Contracts) parseLines(lines []rawLine, trusted bool) error {
+func (cs *Contracts) parseLines(lines []rawLine, trusted bool, home string) error {
 	var cur *FuncContract
 	var curLoop *LoopContract
 	for _, rl := range lines {
@@ -223,7 +232,7 @@ func (cs *Contracts) parseLines(lines []rawLine, trusted bool) error {
 				return errf("bad func header %q", t)
 			}
 			cur = &FuncContract{Key: m[1], Params: splitNames(m[2]), Results: splitNames(m[3]), Loops: map[int]*LoopContract{},
-				Trusted: trusted, File: rl.file, Line: rl.line}
+				Trusted: trusted, File: rl.file, Line: rl.line, Pkg: home}
 			if _, dup := cs.Funcs[cur.Key]; dup {
 				return errf("duplicate contract for %s", cur.Key)
 			}
@@ -372,7 +381,7 @@ func (cs *Contracts) parseLines(lines []rawLine, trusted bool) error {
 			if _, dup := cs.Preds[m[1]]; dup {
 				return errf("duplicate pred %s", m[1])
 			}
-			cs.Preds[m[1]] = &Pred{Name: m[1], Params: splitNames(m[2]), Body: e, Src: m[3]}
+			cs.Preds[m[1]] = &Pred{Name: m[1], Params: splitNames(m[2]), Body: e, Src: m[3], Pkg: home}
 			cur = nil
 		case kw == "spec":
 			m := regexp.MustCompile(`^(\w+)\(([^)]*)\)\s*(\w+)$`).FindStringSubmatch(rest)
